@@ -263,6 +263,7 @@ def _batch_body(check_id, verif_seed, indices, tier, repo, task_limit_s):
     executed = []
     for index in indices:
         plan = plan_for(mod, verif_seed, index, tier)
+        plan["explore"] = True      # exploration run: directed known-finding cases ride along in plan 0
         res = run_one(mod, plan, env)
         out["plans"] += 1
         out["evaluations"] += res.evaluations
@@ -271,15 +272,17 @@ def _batch_body(check_id, verif_seed, indices, tier, repo, task_limit_s):
         for k, v in res.counters.items():
             out["counters"][k] = out["counters"].get(k, 0) + v
         out["keys"] |= res.keys
-        out["digests"].append((index, plan_digest(plan)[:16], res.digest[:16]))
+        out["digests"].append((index, plan_digest({k: v for k, v in plan.items() if k != "explore"})[:16], res.digest[:16]))
         if len(out["samples"]) < 2 and res.sample is not None:
             out["samples"].append(res.sample)
         for k in res.known:
             out["known"].append(k)
         if res.violation is not None:
             # the plans this child executed earlier are part of the failing execution
-            out["violations"].append({"index": index, "plan": plan, "violation": res.violation,
-                                      "prefix": executed})
+            # a violation found by a directed case names the concrete plan that reproduces it
+            vplan = res.violation.pop("replan", None) or {k: v for k, v in plan.items() if k != "explore"}
+            out["violations"].append({"index": index, "plan": vplan, "violation": res.violation,
+                                      "prefix": [{k: v for k, v in p.items() if k != "explore"} for p in executed]})
             break
         executed.append(plan)
     return out
